@@ -104,7 +104,6 @@ func init() {
 		"strconv.Atoi":                        ext۰strconv۰Atoi,
 		"strconv.Itoa":                        ext۰strconv۰Itoa,
 		"strconv.FormatFloat":                 ext۰strconv۰FormatFloat,
-		"strings.Count":                       ext۰strings۰Count,
 		"strings.EqualFold":                   ext۰strings۰EqualFold,
 		"strings.Index":                       ext۰strings۰Index,
 		"strings.IndexByte":                   ext۰strings۰IndexByte,
